@@ -432,64 +432,68 @@ Fixpoint listN_eqb (a b : list N) : bool :=
   | _, _ => false
   end.
 
-(* The observation packed into one number (base 64, leading 1): what the harness prints. *)
-Definition pack (l : list N) : N := fold_left (fun acc x => acc * 64 + x)%N l 1%N.
-
-Definition obs_small (l : list N) : bool := forallb (fun x => N.ltb x 64) l.
-
-(* A tree of schedules with the (packed) observation recorded on the real class at every node;
-   monomorphic constructors keep the generated case files cheap to elaborate. *)
-Inductive trie :=
-| Nd (ob : N) (kids : kidlist)
-with kidlist :=
-| KNil
-| KC (i : nat) (k : trie) (r : kidlist)      (* child reached by client i *)
-| KS (h : nat) (k : trie) (r : kidlist).     (* child reached by starter h *)
-
-Fixpoint check_trie (c : cfg) (o : oracle) (s : state) (t : trie) : bool :=
-  match t with
-  | Nd ob kids =>
-      let l := observe c o s in
-      obs_small l && N.eqb (pack l) ob && check_kids c o s kids
-  end
-with check_kids (c : cfg) (o : oracle) (s : state) (ks : kidlist) : bool :=
-  match ks with
-  | KNil => true
-  | KC i k r => check_trie c o (step_or_stay c o s (Cl i)) k && check_kids c o s r
-  | KS h k r => check_trie c o (step_or_stay c o s (St h)) k && check_kids c o s r
-  end.
-
-(* diagnostics: schedule leading to the first node that disagrees, and the model's observation *)
-Fixpoint find_bad (c : cfg) (o : oracle) (s : state) (pre : list tid) (t : trie)
-  : option (list tid * list N) :=
-  match t with
-  | Nd ob kids =>
-      let l := observe c o s in
-      if obs_small l && N.eqb (pack l) ob then find_bad_kids c o s pre kids
-      else Some (pre, l)
-  end
-with find_bad_kids (c : cfg) (o : oracle) (s : state) (pre : list tid) (ks : kidlist)
-  : option (list tid * list N) :=
-  match ks with
-  | KNil => None
-  | KC i k r => match find_bad c o (step_or_stay c o s (Cl i)) (pre ++ [Cl i]) k with
-                | Some x => Some x
-                | None => find_bad_kids c o s pre r end
-  | KS h k r => match find_bad c o (step_or_stay c o s (St h)) (pre ++ [St h]) k with
-                | Some x => Some x
-                | None => find_bad_kids c o s pre r end
-  end.
-
-(* a correspondence case: configuration, oracle, scripts, recorded trie *)
-Definition check_case (x : cfg * oracle * list (list op) * trie) : bool :=
-  let '(c, o, scripts, t) := x in check_trie c o (init scripts) t.
-
-Definition diag_case (x : cfg * oracle * list (list op) * trie) : option (list tid * list N) :=
-  let '(c, o, scripts, t) := x in find_bad c o (init scripts) [] t.
-
 (* observations along one schedule (initial state first) *)
 Fixpoint trace (c : cfg) (o : oracle) (sched : list tid) (s : state) : list (list N) :=
   observe c o s :: match sched with
                    | [] => []
                    | t :: r => trace c o r (step_or_stay c o s t)
                    end.
+
+(* ------------------------------------------------------------------------------------------
+   Correspondence cases.  The harness sends a TREE OF SCHEDULES (numeral-free constructors: Coq
+   8.16 elaborates a numeral in ~0.1 ms, a constant in ~0.02 ms, and a case has 10^3-10^5 nodes)
+   and ONE number: a polynomial digest (multiplier 6364136223846793005, arithmetic modulo 2^63 on
+   primitive integers) of the observations it recorded on the real class at every node, in
+   pre-order.  Coq recomputes the digest from the model's observations and compares.  Every
+   observed field must be < 64 (checked on both sides).  Two runs that differ in one field have
+   different digests (the multiplier is odd); differences in several fields cancel only by
+   accident (~2^-63).  Primitive integers are used here only - no theorem depends on them. *)
+Definition obs_small (l : list N) : bool := forallb (fun x => N.ltb x 64) l.
+
+From Coq Require Import Uint63.
+
+Definition n2i (x : N) : int := match x with N0 => 0%uint63 | Npos p => of_pos p end.
+
+Definition mix (acc : int) (l : list N) : int :=
+  fold_left (fun a x => (a * 6364136223846793005 + n2i x + 1)%uint63) l
+            (acc * 6364136223846793005 + 77)%uint63.
+
+Inductive tidc := c0 | c1 | c2 | c3 | s0 | s1 | s2 | s3 | s4 | s5 | cN (i : nat) | sN (h : nat).
+
+Definition tid_of (t : tidc) : tid :=
+  match t with
+  | c0 => Cl 0 | c1 => Cl 1 | c2 => Cl 2 | c3 => Cl 3
+  | s0 => St 0 | s1 => St 1 | s2 => St 2 | s3 => St 3 | s4 => St 4 | s5 => St 5
+  | cN i => Cl i | sN h => St h
+  end.
+
+Inductive trie := Nd (kids : kidlist)
+with kidlist := KNil | KK (t : tidc) (k : trie) (r : kidlist).
+
+(* pre-order digest; None = some observed field does not fit the packing (fail closed) *)
+Fixpoint digest_trie (c : cfg) (o : oracle) (s : state) (t : trie) (acc : option int) : option int :=
+  match t with
+  | Nd kids =>
+      let l := observe c o s in
+      match acc with
+      | Some a => if obs_small l then digest_kids c o s kids (Some (mix a l)) else None
+      | None => None
+      end
+  end
+with digest_kids (c : cfg) (o : oracle) (s : state) (ks : kidlist) (acc : option int) : option int :=
+  match ks with
+  | KNil => acc
+  | KK t k r => digest_kids c o s r (digest_trie c o (step_or_stay c o s (tid_of t)) k acc)
+  end.
+
+(* a correspondence case: configuration, oracle, scripts, schedule tree, digest of the real run *)
+Definition check_case (x : cfg * oracle * list (list op) * trie * int) : bool :=
+  let '(c, o, scripts, t, d) := x in
+  match digest_trie c o (init scripts) t (Some 0%uint63) with
+  | Some d' => Uint63.eqb d' d
+  | None => false
+  end.
+
+Definition case_digest (x : cfg * oracle * list (list op) * trie) : option int :=
+  let '(c, o, scripts, t) := x in digest_trie c o (init scripts) t (Some 0%uint63).
+
